@@ -109,6 +109,9 @@ def gen_jobs(tier, seed):
     # parameter names that the generated entry point also uses for its own purposes
     for q, job in enumerate(jobs):
         ren = {"j": "type"} if q % 11 == 3 else {5: {"k": "OVLD"}, 8: {"j": "KWARGS", "k": "MISSING"}}.get(q % 97)
+        if not ren and q % 13 == 6:
+            # ... and the names the entry point gives to positions the methods name differently
+            ren = {"k": "ARG1", "j": "ARG2"}
         if not ren:
             continue
         for m in job["world"]["methods"]:
